@@ -117,6 +117,12 @@ def translate():
     ifs = comp.generators[0].ifs
     need(len(ifs) >= 1, "the attribute comprehension has no filter")
     cond = " && ".join(_cond(e) for e in ifs)
+    # the filter is emitted first, so that the model follows the current filter even when the shape check below fails
+    lines = ["From TxV Require Import Core.Base Model.FqnDefs.",
+             "(* [a for a in parent.__dict__ if %s] *)" % " and ".join(ast.unparse(e) for e in ifs).replace("*)", "* )"),
+             "Definition src_walked (x : attr) : bool :=",
+             "  (%s)%%bool." % cond]
+    emit("SrcFqn", "\n".join(lines) + "\n")
     comp.generators[0].ifs = [ast.Name(id="FILTER", ctx=ast.Load())]
     got = ast.unparse(fn)
     if got != EXPECTED:
@@ -124,9 +130,4 @@ def translate():
         k = next((i for i, (a, b) in enumerate(zip(gl, el)) if a != b), min(len(gl), len(el)))
         raise TranslateError("FQN.__call__ is not the transcribed shape; first difference at statement line %d: source has %r, model transcribes %r"
                              % (k + 1, gl[k].strip() if k < len(gl) else "<end>", el[k].strip() if k < len(el) else "<end>"))
-    lines = ["From TxV Require Import Core.Base Model.FqnDefs.",
-             "(* [a for a in parent.__dict__ if %s] *)" % " and ".join(ast.unparse(e) for e in ifs).replace("*)", "* )"),
-             "Definition src_walked (x : attr) : bool :=",
-             "  (%s)%%bool." % cond]
-    emit("SrcFqn", "\n".join(lines) + "\n")
     return []
